@@ -1,5 +1,5 @@
 SPECIFICATION Spec
 CONSTANTS Parts = {"tree", "extract", "corrupt"}  MaxNodes = 3  FullNodes = 2  MaxHostile = 1
-          MaxMembers = 3  HardLinkRule = "prefix"  Gen = TRUE
+          MaxMembers = 3  HardLinkRule = "resolved"  Gen = TRUE
 INVARIANT GenPrint
 CHECK_DEADLOCK FALSE
